@@ -157,7 +157,7 @@ Definition tcp_resp_agrees (q : greq) (o : owire) : bool :=
   match app_behaviour {| m_typ := 0; m_code := q_code q; m_mid := 0; m_tok := q_tok q;
                          m_opts := map (fun seg => (uri_path_id, seg)) (path_of_tag routes (q_route q)); m_pay := q_pay q |} with
   | BResp code _ pay => (ow_code o =? code) && bytes_eqb (ow_tok o) (q_tok q) && (ow_plen o =? blen pay) && (ow_pcs o =? csum pay)
-  | BNone => false
+  | _ => false
   end.
 
 (* ---- accept level (Model.v Part 5) instantiated: one stream/DTLS connection = the application applied to each
